@@ -556,7 +556,8 @@ def family_deep(seed=0, nmax=5, extra=24):
 # ------------------------------------------------------------------ raw (hand-templated) programs
 
 class RawSpec:
-    def __init__(self, files, label, expect='accept', reject_props=None, family='raw', naming='plain', extra_pkgs=None):
+    def __init__(self, files, label, expect='accept', reject_props=None, family='raw', naming='plain', extra_pkgs=None, compile_props=None):
+        self.compile_props = compile_props or ['C01']
         self.files = files              # filename -> source ({PKG} is replaced by the package name)
         self.label = label
         self.expect = expect
@@ -664,6 +665,11 @@ def family_values():
               'Iface.(int) + one()', '(<-Ch) + 1', '[]int{<-Ch}[0]', '-(<-Ch)', '*(&[]int{one()}[0])', 'struct{ A int }{A: one()}.A', '[...]int{one()}[0]']
     for ex in nested:
         rej.append(('nested unsafe operation: ' + ex, nest_decl, 'wire.Value(%s)' % ex, 'int'))
+    # an unsafe operation next to a (harmless) conversion, in both orders
+    for u in ['one()', '<-Ch', 'func() int { return 1 }()', '*ptr()']:
+        rej.append(('unsafe operation followed by a conversion: ' + u, nest_decl, 'wire.Value([2]int{%s, int(MyInt(2))})' % u, '[2]int'))
+        rej.append(('unsafe operation preceded by a conversion: ' + u, nest_decl, 'wire.Value([2]int{int(MyInt(2)), %s})' % u, '[2]int'))
+        rej.append(('unsafe operation between conversions: ' + u, nest_decl, 'wire.Value(S{ID: int(MyInt(%s)) + int(MyInt(3))})' % u, 'S'))
     for lab, decl, item, rty in rej:
         files = {
             'providers.go': 'package {PKG}\n\n%s\n' % decl,
@@ -815,6 +821,26 @@ def family_frontend():
     extra = {'dep': {'dep.go': ('package dep\n\nimport "example.com/corpus/vrt"\n\ntype DB struct{ ID int }\ntype Dep struct{ ID int }\n\nfunc NewDep() Dep {\n\tid, _ := vrt.Call(1, false)\n\treturn Dep{ID: id}\n}\n\n'
                                 'func NewArr(d Dep) ([2]DB, error) {\n\tid, err := vrt.Call(0, true, d.ID)\n\tif err != nil {\n\t\treturn [2]DB{}, err\n\t}\n\treturn [2]DB{{ID: id}, {ID: id + 1}}, nil\n}\n')}}
     specs.append(RawSpec(files, 'types of another package only in signatures and zero values (struct, pointer, array results with fallible providers); parameters named like the imported packages (dep, vrt)', family='frontend', extra_pkgs=extra))
+    # --- injectors spread over several files, the later file with several injectors and declarations of its own
+    files = {
+        'providers.go': ('package {PKG}\n\nimport "example.com/corpus/vrt"\n\ntype A struct{ ID int }\ntype B struct{ ID int }\n\n'
+                         'func NewA() A {\n\tid, _ := vrt.Call(1, false)\n\treturn A{ID: id}\n}\n\nfunc NewB(a A) B {\n\tid, _ := vrt.Call(0, false, a.ID)\n\treturn B{ID: id}\n}\n'),
+        'a_wire.go': ('//go:build wireinject\n// +build wireinject\n\npackage {PKG}\n\nimport "github.com/google/wire"\n\nvar ASet = wire.NewSet(NewA)\n\nfunc helperA() int { return 1 }\n\n'
+                      'func InjectA() A {\n\tpanic(wire.Build(ASet))\n}\n'),
+        'b_wire.go': ('//go:build wireinject\n// +build wireinject\n\npackage {PKG}\n\nimport "github.com/google/wire"\n\nvar BSet = wire.NewSet(ASet, NewB)\n\nfunc helperB() int { return 2 }\n\n'
+                      'func InjectB() B {\n\tpanic(wire.Build(BSet))\n}\n\nfunc InjectB2() B {\n\tpanic(wire.Build(NewA, NewB))\n}\n\nfunc InjectB3() B {\n\tpanic(wire.Build(BSet))\n}\n'),
+        'c_wire.go': ('//go:build wireinject\n// +build wireinject\n\npackage {PKG}\n\nimport "github.com/google/wire"\n\nfunc helperC() int { return 3 }\n\n'
+                      'func InjectC() A {\n\tpanic(wire.Build(NewA))\n}\n\nfunc InjectC2() A {\n\tpanic(wire.Build(ASet))\n}\n'),
+        'zz_driver.go': ('//go:build !wireinject\n// +build !wireinject\n\npackage {PKG}\n\nimport "example.com/corpus/vrt"\n\nfunc VDrive() {\n'
+                         '\tvrt.A("C15", helperA()+helperB()+helperC() == 6, "helper declarations of every injector file are copied once")\n'
+                         '\tfor which := 0; which < 3; which++ {\n\t\tspec := &vrt.Spec{Nodes: []vrt.Node{{Name: "NewB", Kind: vrt.KFunc, Params: []vrt.Ref{{Node: 1}}}, {Name: "NewA", Kind: vrt.KFunc}}, Result: []vrt.Ref{{Node: 0}}, ArgIDs: make([][]int, 2)}\n'
+                         '\t\tvrt.Reset()\n\t\tvar res B\n\t\tswitch which {\n\t\tcase 0:\n\t\t\tres = InjectB()\n\t\tcase 1:\n\t\t\tres = InjectB2()\n\t\tdefault:\n\t\t\tres = InjectB3()\n\t\t}\n'
+                         '\t\tvrt.Check(spec, vrt.Outcome{Result: []int{res.ID}, CleanupNil: true})\n\t}\n'
+                         '\tfor which := 0; which < 3; which++ {\n\t\tspec := &vrt.Spec{Nodes: []vrt.Node{{Name: "NewB", Kind: vrt.KFunc, Params: []vrt.Ref{{Node: 1}}}, {Name: "NewA", Kind: vrt.KFunc}}, Result: []vrt.Ref{{Node: 1}}, ArgIDs: make([][]int, 2)}\n'
+                         '\t\tvrt.Reset()\n\t\tvar res A\n\t\tswitch which {\n\t\tcase 0:\n\t\t\tres = InjectA()\n\t\tcase 1:\n\t\t\tres = InjectC()\n\t\tdefault:\n\t\t\tres = InjectC2()\n\t\t}\n'
+                         '\t\tvrt.Check(spec, vrt.Outcome{Result: []int{res.ID}, CleanupNil: true})\n\t}\n}\n'),
+    }
+    specs.append(RawSpec(files, 'injectors in three files (1, 3 and 2 injectors), each file with a set variable / helper of its own', family='frontend', compile_props=['C01', 'C15']))
     # --- several provider-set variables declared in one var spec
     files = {
         'providers.go': ('package {PKG}\n\nimport (\n\t"example.com/corpus/vrt"\n\t"github.com/google/wire"\n)\n\ntype A struct{ ID int }\ntype B struct{ ID int }\ntype R struct{ ID int }\n\n'
@@ -837,6 +863,9 @@ def family_frontend():
         'func Loop(n int) int {\n\tacc := 0\nouter:\n\tfor i := 0; i < 3; i++ {\n\t\tfor j := 0; j < 3; j++ {\n\t\t\tif j == n {\n\t\t\t\tcontinue outer\n\t\t\t}\n\t\t\tif i == n {\n\t\t\t\tbreak outer\n\t\t\t}\n\t\t\tacc += i*3 + j\n\t\t}\n\t}\n\treturn acc\n}\n\n'
         'func Closure(x int) int {\n\tadd := func(y int) int { return x + y }\n\treturn add(2)\n}\n\n'
         'func Shadow(err int) int {\n\tcleanup := err + 1\n\t{\n\t\terr := cleanup * 2\n\t\tcleanup = err\n\t}\n\tdep := cleanup + 1\n\tvrt := dep * 2\n\treturn vrt + err\n}\n\n'
+        'func Shadow2(x int) int {\n\tdep := x + 1\n\t{\n\t\tdep2 := 10\n\t\treturn dep + dep2\n\t}\n}\n\n'
+
+        'func Shadow4(strings int) (str2 int) {\n\tfor str := 0; str < 2; str++ {\n\t\tstrings2 := strings + str\n\t\tstr2 += strings2\n\t}\n\treturn str2\n}\n\n'
         'var Table = map[string]int{"a": 1, "b": 2}\n\nconst K = 7\n\ntype Meth struct {\n\tV int `json:"v"`\n}\n\nfunc (m *Meth) Get() int { return m.V + K }\n\n'
         'func Upper(s string) string { return str.ToUpper(s) }\n\n'
         'func TypeSwitch(v interface{}) int {\n\tswitch t := v.(type) {\n\tcase int:\n\t\treturn t\n\tcase string:\n\t\treturn len(t)\n\tdefault:\n\t\treturn -1\n\t}\n}\n\n'
@@ -845,7 +874,7 @@ def family_frontend():
         'func Goto(x int) int {\n\ti := 0\nagain:\n\tif i < x && i < 5 {\n\t\ti++\n\t\tgoto again\n\t}\n\treturn i\n}\n')
     def twin(src):
         out = src
-        for name in ['Pair2', 'PairOf', 'Pair', 'Map', 'Sum', 'Classify', 'Loop', 'Closure', 'Shadow', 'Table', 'Meth', 'Upper', 'TypeSwitch', 'Defer', 'Select', 'Goto']:
+        for name in ['Pair2', 'PairOf', 'Pair', 'Map', 'Sum', 'Classify', 'Loop', 'Closure', 'Shadow2', 'Shadow4', 'Shadow', 'Table', 'Meth', 'Upper', 'TypeSwitch', 'Defer', 'Select', 'Goto']:
             out = re.sub(r'\b%s\b' % name, name + 'Orig', out)
         out = re.sub(r'\bK\b', 'KOrig', out)
         return out
@@ -861,6 +890,9 @@ def family_frontend():
                          '\tvrt.A("C15", Loop(y) == LoopOrig(y), "copied Loop (labels) behaves like the original")\n'
                          '\tvrt.A("C15", Closure(x) == ClosureOrig(x), "copied Closure behaves like the original")\n'
                          '\tvrt.A("C15,C14", Shadow(x) == ShadowOrig(x), "copied Shadow (locals named err, cleanup, dep, vrt) behaves like the original")\n'
+                         '\tvrt.A("C15,C14", Shadow2(x) == Shadow2Orig(x), "copied Shadow2 (a nested local spelled like the replacement name of a renamed outer local) behaves like the original")\n'
+
+                         '\tvrt.A("C15,C14", Shadow4(x) == Shadow4Orig(x), "copied Shadow4 (parameter named like an imported package, named result, loop variable) behaves like the original")\n'
                          '\tvrt.A("C15", Sum(x, y, 3) == SumOrig(x, y, 3), "copied variadic Sum behaves like the original")\n'
                          '\tvrt.A("C15", Defer(x) == DeferOrig(x), "copied Defer behaves like the original")\n'
                          '\tvrt.A("C15", Select(x) == SelectOrig(x), "copied Select behaves like the original")\n'
@@ -876,5 +908,19 @@ def family_frontend():
                          '\tres := Inject()\n\tvrt.Check(spec, vrt.Outcome{Result: []int{res.ID}, CleanupNil: true})\n\tvrt.Cover("zoo-checked")\n}\n'),
     }
     extra = {'dep': {'dep.go': 'package dep\n\nimport "example.com/corpus/vrt"\n\ntype DB struct{ ID int }\n\nfunc NewDB() DB {\n\tid, _ := vrt.Call(1, false)\n\treturn DB{ID: id}\n}\n'}}
-    specs.append(RawSpec(files, 'declarations next to an injector are copied and behave like their originals (generics, labels, closures, shadowing, methods, aliased import, colliding local names)', family='frontend', extra_pkgs=extra))
+    specs.append(RawSpec(files, 'declarations next to an injector are copied and behave like their originals (generics, labels, closures, shadowing, methods, aliased import, colliding local names)', family='frontend', extra_pkgs=extra, compile_props=['C01', 'C15', 'C14']))
+    # same-scope collisions between a renamed local and other locals (a wrong rename here does not compile)
+    zoo2 = ('func Shadow3(x int) int {\n\tdep := x\n\tdep2 := dep + 1\n\tdep3 := func(dep2_2 int) int { return dep2_2 + dep }\n\treturn dep2*2 + dep3(dep)\n}\n\n'
+            'func Shadow5(dep, dep2 int) (dep3 int) {\n\tdep3 = dep*2 + dep2\n\treturn\n}\n')
+    files2 = {
+        'providers.go': files['providers.go'],
+        'orig.go': 'package {PKG}\n\n' + zoo2.replace('Shadow3', 'Shadow3Orig').replace('Shadow5', 'Shadow5Orig'),
+        'wire.go': ('//go:build wireinject\n// +build wireinject\n\npackage {PKG}\n\nimport (\n\t"github.com/google/wire"\n\t"example.com/corpus/{PKG}/dep"\n)\n\n'
+                    'func Inject() App {\n\tpanic(wire.Build(dep.NewDB, NewApp))\n}\n\n' + zoo2),
+        'zz_driver.go': ('//go:build !wireinject\n// +build !wireinject\n\npackage {PKG}\n\nimport "example.com/corpus/vrt"\n\nfunc VDrive() {\n\tx := vrt.ArgID("x") - 500\n\ty := vrt.ArgID("y") - 3\n'
+                         '\tvrt.A("C15,C14", Shadow3(x) == Shadow3Orig(x), "copied Shadow3 (same-scope locals dep, dep2, closure parameter dep2_2) behaves like the original")\n'
+                         '\tvrt.A("C15,C14", Shadow5(x, y) == Shadow5Orig(x, y), "copied Shadow5 (parameters dep, dep2 and named result dep3) behaves like the original")\n'
+                         '\tvrt.Reset()\n\t_ = Inject()\n\tvrt.Cover("zoo-checked")\n}\n'),
+    }
+    specs.append(RawSpec(files2, 'copied declarations whose locals collide with each other after renaming (same scope)', family='frontend', extra_pkgs=extra, compile_props=['C01', 'C15', 'C14']))
     return specs
